@@ -198,8 +198,8 @@ func init() {
 				switch o.Rule {
 				case "RW.FILEPASSES":
 					return strings.HasPrefix(o.Construct, "order of passes")
-				case "SEQ.GEN":
-					return strings.Contains(o.Construct, "MoveNext") || strings.Contains(o.Construct, "Current") || o.Construct == "coverage"
+				case "SEQ.GEN": // only: an exhausted delegate stays exhausted; a delegation advances with MoveNext
+					return strings.HasPrefix(o.Construct, "MoveNext") || o.Construct == "coverage"
 				case "RW.DISPATCH", "RW.DEEPVISIT", "SEQ.LAZY":
 					return false
 				case "RW.FIELDCOV":
